@@ -1,6 +1,6 @@
 /* C14 (ii): API-level life cycle over <= 3 slots with a nondeterministic operation per step.
  * Back ends per slot: 0 -> liberasurecode_rs_vand(2,1), 1 -> rs_vand(1,1) (shares the GF tables),
- * 2 -> flat_xor_hd(3,3,3).  Counter preset enumerated by the driver (-DPRESET).
+ * 2 -> flat_xor_hd(3,3,3), 3 -> flat_xor_hd(5,5,3) (two instances of one back end with different shapes).  Counter preset enumerated by the driver (-DPRESET).
  * Checks: descriptors positive and distinct while live; dead descriptors refused by every entry
  * point; failed creates leave nothing behind; GF tables present exactly while an RS instance is
  * live (real init/deinit reference counting, arithmetic contract-replaced); a surviving RS
@@ -15,7 +15,7 @@
 #ifndef PRESET
 #define PRESET 0
 #endif
-#define SLOTS 3
+#define SLOTS 4
 extern int next_backend_desc;
 extern int *log_table;
 static int live[SLOTS], dsc[SLOTS];
@@ -27,30 +27,32 @@ static int create(int s, int fail)
     a.ct = CHKSUM_NONE;
     if (s == 0) { a.k = 2; a.m = 1; a.hd = 1; }
     else if (s == 1) { a.k = 1; a.m = 1; a.hd = 1; }
-    else { a.k = 3; a.m = 3; a.hd = 3; }
+    else if (s == 2) { a.k = 3; a.m = 3; a.hd = 3; }
+    else { a.k = 5; a.m = 5; a.hd = 3; }
     if (fail == 1) { a.k = 4; a.m = 3; a.hd = 3; return liberasurecode_instance_create(EC_BACKEND_FLAT_XOR_HD, &a); }   /* unsupported shape -> init fails */
     if (fail == 2) { env_dlopen_fail = 1; int r = liberasurecode_instance_create(EC_BACKEND_LIBERASURECODE_RS_VAND, &a); env_dlopen_fail = 0; return r; }
-    return liberasurecode_instance_create(s == 2 ? EC_BACKEND_FLAT_XOR_HD : EC_BACKEND_LIBERASURECODE_RS_VAND, &a);
+    return liberasurecode_instance_create(s >= 2 ? EC_BACKEND_FLAT_XOR_HD : EC_BACKEND_LIBERASURECODE_RS_VAND, &a);
 }
 
 static void use(int s)
 {
     /* encode two symbolic bytes and look at the first parity: XOR of the data for every code here */
-    uint8_t src[12];
-    int k = s == 0 ? 2 : s == 1 ? 1 : 3, w = s == 2 ? 4 : 2;
-    vin_bytes(src, 12);
+    uint8_t src[20];
+    int k = s == 0 ? 2 : s == 1 ? 1 : s == 2 ? 3 : 5, w = s >= 2 ? 4 : 2;
+    vin_bytes(src, 20);
     char **ed = NULL, **ep = NULL; uint64_t fl = 0;
     int len = k * w;
     int rc = liberasurecode_encode(dsc[s], (char *)src, len, &ed, &ep, &fl);
     CHECK(rc == 0 && fl == (uint64_t)(80 + w), "a live instance encodes");
     if (rc == 0) {
-        if (s != 2) {
+        if (s < 2) {
             int ok = 1;
             for (int b = 0; b < w; b++) { uint8_t x = 0; for (int i = 0; i < k; i++) x ^= src[i * w + b]; ok &= ((uint8_t)ep[0][80 + b] == x); }
             CHECK(ok, "first RS parity of a surviving instance is not the XOR of the data");
         } else {
-            int ok = 1;   /* (3,3,3): parity0 = d0 ^ d2 */
-            for (int b = 0; b < w; b++) ok &= ((uint8_t)ep[0][80 + b] == (uint8_t)(src[b] ^ src[2 * w + b]));
+            int ok = 1;   /* (3,3,3): parity0 = d0 ^ d2;  (5,5,3): parity0 = d0 ^ d1 */
+            int other = s == 2 ? 2 : 1;
+            for (int b = 0; b < w; b++) ok &= ((uint8_t)ep[0][80 + b] == (uint8_t)(src[b] ^ src[other * w + b]));
             CHECK(ok, "flat-XOR parity of a surviving instance");
         }
         liberasurecode_encode_cleanup(dsc[s], ed, ep);
